@@ -252,7 +252,8 @@ def steady_state_transport_solver(
 
     # shift green function in Fourier space to measurement point
     if footprint:
-        shift = np.exp(1j * (Lx * (xm + halo) + Ly * (ym + halo)))
+        # offset by the padded width actually used (whole cells), not by halo
+        shift = np.exp(1j * (Lx * (xm + px * dx) + Ly * (ym + py * dy)))
         tfftp = tfftp * shift
         tfftq = tfftq * shift
     # shift such that xm, ym are in the middle of the domain
